@@ -487,7 +487,7 @@ fn c17(args: &[String]) {
                 // the 8.3 path), under every case-flag combination, for a name with extension, one without, a full 8.3 name
                 // with escaped 0xE5 lead byte
                 if !subset {
-                    for (bi, base) in [SFN_A, *b"DOCS       ", *b"\x05BCDEFGHIJK"].iter().enumerate() {
+                    for (bi, base) in [SFN_A, *b"DOCS       ", *b"\x05BCDEFGHIJK", *b"        TXT", *b"           ", *b"A       B  "].iter().enumerate() {
                         for nt in [0u8, 0x08, 0x10, 0x18] {
                             let mut j = t;
                             while j < 32 * 256 {
